@@ -217,6 +217,15 @@ func scriptedHook(cfg scfg) func(name string, req map[string]interface{}) vs.Hoo
 						}
 					}
 				}
+				if mode == "foreign-uid-label" && i == 0 {
+					// a hook that copies labels from somewhere else: the child carries another parent's controller-uid label
+					lbl, _ := md["labels"].(map[string]interface{})
+					if lbl == nil {
+						lbl = vs.M{}
+					}
+					lbl["controller-uid"] = "uid-of-someone-else"
+					md["labels"] = lbl
+				}
 				if mode == "child-status" {
 					// a hook that copies whole objects, status included
 					o["status"] = vs.M{"ready": true}
@@ -343,6 +352,8 @@ func buildScenario(r *vs.Rand, cfg scfg) *scenario {
 		spec["hookMode"] = "child-status"
 	case 10:
 		spec["hookMode"] = "echo-annotations"
+	case 11:
+		spec["hookMode"] = "foreign-uid-label"
 	}
 	if cfg.GenerateSelector {
 		// with selector generation the children need no matching labels of their own
